@@ -342,6 +342,17 @@ func runStmtCases(seed uint64, n int, outDir string, extra map[string]interface{
 					fmt.Fprintf(fin, "jsstmtp\t%s\n", in)
 					fmt.Fprintf(fout, "%s\n", strings.Join(toks[len(pre):len(toks)-len(suf)], " "))
 					fmt.Fprintf(fsrc, "%s\n", src)
+					if ob := mo.String(); strings.HasPrefix(ob, "x0=function(){") && strings.HasSuffix(ob, "}()") {
+						// the same body byte for byte (Js/StmtRender.v: keywords, raw semicolons, the writer's spaces)
+						fmt.Fprintf(fin, "jsstmtpb\t%s\n", in)
+						bb := strings.TrimSuffix(strings.TrimPrefix(ob, "x0=function(){"), "}()")
+						if bb == "" {
+							fmt.Fprintf(fout, "-\n") // the model's driver writes the empty byte string this way
+						} else {
+							fmt.Fprintf(fout, "%x\n", bb)
+						}
+						fmt.Fprintf(fsrc, "%s\n", src)
+					}
 					fmt.Fprintf(fin, "jsstmtr\t%s\n", in)
 					fmt.Fprintf(fout, "ok\n")
 					fmt.Fprintf(fsrc, "%s\n", src)
